@@ -55,4 +55,56 @@ theorem checkIdle_cases (s : State) :
       simp at h; exact h
     · left; rfl
 
+
+/-! ### a weighted sum over the clients, for the termination measure -/
+
+def sumW (w : CSt → Nat) : List CSt → Nat
+  | [] => 0
+  | c :: cs => w c + sumW w cs
+
+theorem sumW_append (w : CSt → Nat) (a b : List CSt) : sumW w (a ++ b) = sumW w a + sumW w b := by
+  induction a with
+  | nil => simp [sumW]
+  | cons x xs ih => simp [sumW, ih]; omega
+
+theorem sumW_set (w : CSt → Nat) {cl : List CSt} {c : Nat} {old st : CSt} (h : cl[c]? = some old) :
+    sumW w (cl.set c st) + w old = sumW w cl + w st := by
+  induction cl generalizing c with
+  | nil => simp at h
+  | cons y ys ih =>
+    cases c with
+    | zero => simp at h; subst h; simp [sumW]; omega
+    | succ j =>
+      simp at h
+      have := ih h
+      simp only [List.set_cons_succ, sumW]
+      omega
+
+theorem sumW_eraseIdx (w : CSt → Nat) {cl : List CSt} {c : Nat} {old : CSt} (h : cl[c]? = some old) :
+    sumW w (cl.eraseIdx c) + w old = sumW w cl := by
+  induction cl generalizing c with
+  | nil => simp at h
+  | cons y ys ih =>
+    cases c with
+    | zero => simp at h; subst h; simp [sumW]; omega
+    | succ j =>
+      simp at h
+      have := ih h
+      simp only [List.eraseIdx_cons_succ, sumW]
+      omega
+
+def CSt.isExiting : CSt → Bool
+  | .exiting => true
+  | _ => false
+
+theorem all_set_false {cl : List CSt} {c : Nat} {st : CSt} (hc : c < cl.length) (hst : st.isExiting = false) :
+    (cl.set c st).all CSt.isExiting = false := by
+  rw [List.all_eq_false]
+  exact ⟨st, List.mem_set hc st, by simp [hst]⟩
+
+theorem all_false_of_getElem {cl : List CSt} {c : Nat} {st : CSt} (h : cl[c]? = some st) (hst : st.isExiting = false) :
+    cl.all CSt.isExiting = false := by
+  rw [List.all_eq_false]
+  exact ⟨st, List.mem_of_getElem? h, by simp [hst]⟩
+
 end Slimta.Pool
